@@ -15,8 +15,10 @@ _GZ_BODY = '''        resp = next()
 
         # https://connect.microsoft.com/IE/feedback/details/1795907/content-encoding-gzip-in-response-header-is-missing-on-ie11
         if 'msie' in (request.user_agent.browser or ''):
-            if not (resp.content_type.startswith('text/') or
-                    'javascript' in resp.content_type):
+            # a response need not have a Content-Type header
+            content_type = resp.content_type or ''
+            if not (content_type.startswith('text/') or
+                    'javascript' in content_type):
                 return resp
 
         if resp.is_streamed:
@@ -105,7 +107,8 @@ T('h_gz_single_exit_helpers', ['C15'], (GZ, _GZ_BODY, '''        resp = next()
         if not request.accept_encodings['gzip']:
             return False
         from_ie = 'msie' in (request.user_agent.browser or '')
-        if from_ie and not (resp.content_type.startswith('text/') or 'javascript' in resp.content_type):
+        ctype = resp.content_type or ''
+        if from_ie and not (ctype.startswith('text/') or 'javascript' in ctype):
             return False
         if resp.is_streamed:
             return False
